@@ -1,13 +1,14 @@
 (* C09 - operations end in bounded time with a classified error; first cause wins.
    Proved here: EVERY task outcome of EVERY run is the result, an error of the library hierarchy, or - for disconnect() and
    request/response calls only - a cancellation (C09_every_outcome_classified, by an invariant on what the call futures can
-   hold); classification of every exit of start_connection, of the error wrapper and of what waiters receive; the first
+   hold), and such a cancellation only when the caller had cancelled that very operation (C09_cancellation_only_by_caller, by the
+   invariant that ties every awaited call to the one task that awaits it); classification of every exit of start_connection, of the error wrapper and of what waiters receive; the first
    fatal cause is kept and is what every pending waiter gets; awaits are entered with their timers armed at the documented
    bounds and virtual time cannot pass an armed deadline.  PARTIAL in one named respect: the composition
    "hence every awaited operation is complete by start + bound" is not proved as one theorem about runs; it is
    checked on the implementation (completion times under the virtual clock, deadlock detector) on every run. *)
 From Coq Require Import NArith ZArith List Bool.
-From Verif Require Import Generated.GenConstants Model.Conn Proofs.ConnCalls Proofs.ConnErrors Proofs.ConnHello Proofs.ConnOutcome.
+From Verif Require Import Generated.GenConstants Model.Conn Proofs.ConnCalls Proofs.ConnErrors Proofs.ConnHello Proofs.ConnOutcome Proofs.ConnCancel.
 Import ListNotations.
 Open Scope Z_scope.
 
@@ -104,4 +105,29 @@ Proof. vm_compute. reflexivity. Qed.
 Example C09_reset_outcome :
   last_obs (connect9 ++ [LCallStart [T_PING_REQ] [T_PING_RESP] PAny PAny 1024; LLost (Some (Raw RReset)); LConnLostCb; LWake (TCall 1)])
   = Some [OTaskDone (TCall 1) (TRaise (Lib LReadFailed))].
+Proof. vm_compute. reflexivity. Qed.
+
+(* ---------------------------------------------------------------- a cancellation the caller did not request never escapes *)
+(* user_cancelled is the model's ghost flag "the caller cancelled this very task"; Model/Conn.v assigns it in exactly one place,
+   the LCancel label.  In every run: when disconnect() or a request/response call ends with CancelledError, the flag of that
+   task was up before the step - neither the interrupt that a closing connection delivers to the two connect phases, nor the
+   cancellation of another operation, nor a time-out ever surfaces as a cancellation of this one.
+   (Proofs/ConnCancel.v: invariant over all 35 labels - call ids unique and below the counter, every awaited call exists and is
+   owned by the task awaiting it, a pending cancel flag or a cancelled future only on tasks their caller cancelled.) *)
+Theorem C09_cancellation_only_by_caller : forall n e ka scr l1 c1 os1 l c2 o t,
+  run (init n e ka scr) l1 = Some (c1, os1) -> step c1 l = Some (c2, o) ->
+  In (OTaskDone t (TRaise CancelledErr)) o -> (t = TDisc \/ exists cid, t = TCall cid) ->
+  user_cancelled (get_task c1 t) = true.
+Proof. exact cancellation_only_by_caller. Qed.
+
+Theorem C09_awaited_call_owned : forall n e ka scr ls c os t cid,
+  run (init n e ka scr) ls = Some (c, os) -> t <> TStart -> awaited (pc (get_task c t)) = Some cid ->
+  exists kk, get_call c cid = Some kk /\ c_owner kk = t.
+Proof. exact awaited_call_owned. Qed.
+
+(* non-vacuity: C09_cancelled_outcome above is a run in which the caller cancels a call and it ends with CancelledError;
+   here the flag of that task just before its last step *)
+Example C09_cancelled_flag :
+  option_map (fun r => user_cancelled (get_task (fst r) (TCall 1)))
+    (run (init false false 20480 []) (connect9 ++ [LCallStart [T_PING_REQ] [T_PING_RESP] PAny PAny 1024; LCancel (TCall 1)])) = Some true.
 Proof. vm_compute. reflexivity. Qed.
